@@ -114,16 +114,16 @@ struct CallFut {
 }
 
 impl Future for CallFut {
-    type Output = StoreResult;
+    type Output = (StoreResult, u64);
 
-    fn poll(mut self: Pin<&mut Self>, cx: &mut Context<'_>) -> Poll<StoreResult> {
+    fn poll(mut self: Pin<&mut Self>, cx: &mut Context<'_>) -> Poll<(StoreResult, u64)> {
         let store = self.store.clone();
         let mut g = store.inner.lock().unwrap();
         match self.seq {
             None => {
                 let kind = self.kind.take().expect("polled after completion");
                 if let Some(auto) = g.auto.as_mut() {
-                    return Poll::Ready(match kind {
+                    return Poll::Ready((match kind {
                         CallKind::Get(c) => match auto.get(&c) {
                             Some(d) => StoreResult::Hit(d.clone()),
                             None => StoreResult::Miss,
@@ -135,7 +135,7 @@ impl Future for CallFut {
                             g.puts.push(bs);
                             StoreResult::PutOk
                         }
-                    });
+                    }, 0));
                 }
                 let seq = g.next_seq;
                 g.next_seq += 1;
@@ -155,7 +155,7 @@ impl Future for CallFut {
                         g.calls.remove(&seq);
                         drop(g);
                         self.seq = None;
-                        Poll::Ready(r)
+                        Poll::Ready((r, seq))
                     }
                     None => {
                         c.waker = Some(cx.waker().clone());
@@ -176,7 +176,7 @@ impl Drop for CallFut {
 }
 
 /// The error a failing call reports: every variant of `blockstore::Error` that can be built here, chosen by the
-/// content the call was about (so that a history replays identically) — what the node does with a failed call
+/// number of the call (so that a history replays identically) — what the node does with a failed call
 /// must not depend on the kind of failure.
 fn scripted_error(tag: u8) -> Error {
     match tag % 4 {
@@ -190,12 +190,11 @@ fn scripted_error(tag: u8) -> Error {
 impl Blockstore for ScriptedStore {
     fn get<const S: usize>(&self, cid: &CidGeneric<S>) -> impl Future<Output = Result<Option<Vec<u8>>>> + Send {
         let fut = CallFut { store: self.clone(), kind: Some(CallKind::Get(cid.to_bytes())), seq: None };
-        let tag = cid.to_bytes().last().copied().unwrap_or(0);
         async move {
             match fut.await {
-                StoreResult::Hit(d) => Ok(Some(d)),
-                StoreResult::Miss => Ok(None),
-                _ => Err(scripted_error(tag)),
+                (StoreResult::Hit(d), _) => Ok(Some(d)),
+                (StoreResult::Miss, _) => Ok(None),
+                (_, seq) => Err(scripted_error(seq as u8)),
             }
         }
     }
@@ -208,8 +207,8 @@ impl Blockstore for ScriptedStore {
         };
         async move {
             match fut.await {
-                StoreResult::PutOk => Ok(()),
-                _ => Err(Error::StoredDataError("scripted".into())),
+                (StoreResult::PutOk, _) => Ok(()),
+                (_, seq) => Err(scripted_error(seq as u8)),
             }
         }
     }
@@ -225,12 +224,11 @@ impl Blockstore for ScriptedStore {
         <I as IntoIterator>::IntoIter: Send,
     {
         let bs: Vec<(Vec<u8>, Vec<u8>)> = blocks.into_iter().map(|(c, d)| (c.to_bytes(), d.as_ref().to_vec())).collect();
-        let tag = bs.first().and_then(|b| b.0.last().copied()).unwrap_or(0);
         let fut = CallFut { store: self.clone(), kind: Some(CallKind::Put(bs)), seq: None };
         async move {
             match fut.await {
-                StoreResult::PutOk => Ok(()),
-                _ => Err(scripted_error(tag)),
+                (StoreResult::PutOk, _) => Ok(()),
+                (_, seq) => Err(scripted_error(seq as u8)),
             }
         }
     }
